@@ -12,7 +12,7 @@ from worlds import common
 PID = 'C30'
 SCHEDULE_DEPENDENT = True
 RULE = ('2-6 client threads request the same singleton for the first time under a seeded scheduler '
-        '(sticky/PCT, sync/line/opcode granularity inside SingletonDecorator.__call__); targets: the '
+        '(sticky/PCT, sync/line/opcode granularity inside SingletonDecorator.__call__; injected stalls of up to minutes of virtual time in the middle of a request); targets: the '
         'declared names ActiveFabric, FiberThreadEvent, InstrumentionWriter after an in-place reset, '
         'fresh SingletonDecorator objects around the five real classes, and concurrent ActiveObject() '
         'construction. Non-trivial = at least two threads were inside the first request at the same time '
@@ -40,11 +40,18 @@ def generate(seed, stratum, tier):
     'requests': rng.randrange(1, 3),
     'sched': common.draw_sched(rng, grans=('sync', 'line', 'opcode'), weights=(1, 3, 4),
                                expected_steps=60, policies=('sticky', 'pct')),
+    # the "slow node" fault: a thread is descheduled for up to minutes of virtual time in the middle of a first request
+    'stalls': common.draw_stalls(rng, 60, rate=0.4, n=(1, 3), durations=(1000, 500000, 1500000, 30000000, 300000000)),
   }
   return sc
 
 
 def shrink_candidates(sc):
+  if sc.get('stalls'):
+    yield dict(sc, stalls={})
+    if len(sc['stalls']) > 1:
+      for k in sorted(sc['stalls']):
+        yield dict(sc, stalls={kk: v for kk, v in sc['stalls'].items() if kk != k})
   if sc['threads'] > 2:
     yield dict(sc, threads=sc['threads'] - 1)
   if sc['requests'] > 1:
@@ -56,6 +63,8 @@ def shrink_candidates(sc):
 def execute(sc, sched):
   res = RunResult()
   sim = common.new_sim(sc, sched, max_steps=50000)
+  if sc.get('stalls'):
+    sim.stall_plan = {int(k): v for k, v in sc['stalls'].items()}
   ao = seams.mods['activeobject']
   ev = seams.mods['event']
   target = sc['target']
